@@ -3,20 +3,20 @@ CONSTANTS Ctx <- McCtx
  Init0 <- McInit
  Gas <- McGas
  Devs = {}
- Kinds = {"issue", "repl", "axfer", "freeze", "unfreeze"}
- From = {}
- XTo = {}
- XAmt = {}
+ Kinds = {"issue", "repl", "axfer", "freeze", "unfreeze", "xfer"}
+ From = {"a1"}
+ XTo = {"KO", "KD"}
+ XAmt = {100}
  Payers = {}
  Voters = {}
  Cands = {}
  RegAmt = {}
  AFrom = {"a1", "a4"}
- ATo = {"a1", "a2", "a3", "Z"}
- AAmt <- McAAmtT
- IAmt <- McIAmt
- ACodes = {"T"}
- AIds = {"T"}
+ ATo = {"a2", "Z", "KO"}
+ AAmt <- McAAmtC
+ IAmt <- McIAmtC
+ ACodes = {"N", "C", "G"}
+ AIds = {"N1", "C1", "G1", "X1"}
  BGL = {}
  BoxFrom = {}
  BoxTo = {}
@@ -24,9 +24,9 @@ CONSTANTS Ctx <- McCtx
  RewTerms = {}
  RewAmt = {}
  EmptyOK = FALSE
- MaxTx = 3
+ MaxTx = 2
  MaxBlk = 2
- MaxTot = 3
+ MaxTot = 2
 VIEW View
 INVARIANTS NonNegative Conservation DepositsBacked VotesAtBoundary SupplyEqualsEquity NothingForbiddenIncluded
 PROPERTIES EndOfBlockIssuesTheReward GasWithinLimit NotIncludedIsFree OnlyOwnEquityDecreases SupplyChangesOnlyByIssuerOrHolder FrozenDoesNotMove
